@@ -384,6 +384,13 @@ def check_block_layers(ctx, prog, tag):
     for c in pushes:
         starts_ = success_blocks(ps, c)
         lost = any(r in cfg.reach_from(ps, s_, avoid=pops_) for s_ in starts_ for r in ps.returns())
+        if lost or not starts_:
+            # the pop may sit in a helper, or behind the value of a Result (`if rv.is_err() { pop }`): walk the paths
+            from .pairs import paths_balance
+            _, late_ = paths_balance(prog, ps, BS + "::push", BS + "::pop")
+            if not late_:
+                lost = False
+                starts_ = starts_ or {c.bb}
         ctx.ob("C06.I5.super-restores-the-layer-cursor-on-every-path", tag + "perform_super", bool(starts_) and not lost,
                "a path from a successful BlockStack::push() to a return of perform_super skips BlockStack::pop() (e.g. the "
                "error return of a failing parent body): the block stays one layer up and later renders of the same state "
